@@ -1397,6 +1397,8 @@ class Interp:
     def hasattr_(self, obj, name):
         if isinstance(obj, (ZV, SymObj)) and hasattr(obj, "py_hasattr"):
             return obj.py_hasattr(self, name)
+        if isinstance(obj, (tuple, list, dict, str, int, float, bool, set, frozenset)) or obj is None:
+            return hasattr(obj, name)  # concrete Python containers / scalars
         raise OutOfSubset(f"hasattr({obj!r}, {name})")
 
     def ex_Subscript(self, e, env, mod):
